@@ -308,6 +308,12 @@ def exec (env : Env) (line : String) : String :=
       match drawSource n (bytes.length / 4 + 2) src with
       | (some k, s') => s!"ok k={k} bytesused={bytes.length - s'.bytes.length}"
       | (none, _) => "panic fault"
+    else if op == "newcr" then
+      -- the documented defaults of NewCharRecipe(L): everything allowed, the ambiguous excluded
+      s!"L={argInt as "L"} allow={flagWord "All"} require=0 exclude={flagWord "Ambiguous"} ac=_ rs=0 ec=_"
+    else if op == "newwl" then
+      -- the documented defaults of NewWLRecipe(L, list): no separator, no function, no capitalisation
+      s!"L={argInt as "L"} sepchar=_ sf=nil cap=none"
     else if op == "charinfo" then
       let cfg := cfgOf as
       let r := parseRecipe (arg as "r")
